@@ -43,4 +43,5 @@ MUTANTS = [
          old="                if new_set.len() > 1024 {", new="                if new_set.len() > usize::MAX / 2 {"),
     # ------------------------------------------------------------------ query path / sessions
     # ------------------------------------------------------------------ stable hash
+    # ------------------------------------------------------------------ interning
 ]
